@@ -100,6 +100,10 @@ def gen_dataset_params(rng, fmt: str | None = None, small: bool = False, big: bo
         d['tebeg'] = rng.pick([300.0, 600.0, 900.0])
     if fmt == 'gromacs':
         d['dt'] = rng.pick([1.0, 2.0])
+    if rng.chance(0.25):
+        # an "unwrapped" MD output: atoms carry whole-cell image offsets and keep drifting out of the cell, so the source
+        # coordinates lie outside [0, 1) (the loaders wrap coords; base_positions keeps what the file said)
+        d['unwrapped'] = True
     return d
 
 
@@ -111,6 +115,8 @@ def dataset_arrays(d: dict):
     steps = g.normal(0.0, 0.06, (nf, na, 3))
     steps[0] = 0
     frac = np.mod(base + np.cumsum(steps, axis=0), 1.0)
+    if d.get('unwrapped'):
+        frac = base + np.cumsum(steps, axis=0) + g.integers(-1, 2, (1, na, 3))
     L0 = lattice_matrix(d['lattice'])
     if d.get('npt'):
         lats = np.array([L0 * (1.0 + 0.004 * i) for i in range(nf)])
@@ -367,7 +373,16 @@ def gen_argsets(rng, fmt: str) -> list:
         src[j] = rng.pick(choices)
         if src not in out:
             out.append(src)
-    return [_argset_from_digits(fmt, d) for d in out]
+    sets = [_argset_from_digits(fmt, d) for d in out]
+    if fmt == 'lammps' and rng.chance(0.15):
+        # "anagram" twins: two option sets whose serialised forms are permutations of the same bytes, with the two adjacent
+        # transpositions running in opposite directions (T=3ab, dt=0.ba  vs  T=3ba, dt=0.ab).  A key built from an
+        # order-insensitive or checksum-style digest (byte sum, xor, Fletcher/Adler) cannot tell them apart.
+        a, b = rng.sample(list(range(1, 10)), 2)
+        src = dict(rng.pick(sets))
+        sets.append(dict(src, temperature=int(f'3{a}{b}'), time_step=float(f'0.{b}{a}')))
+        sets.append(dict(src, temperature=int(f'3{b}{a}'), time_step=float(f'0.{a}{b}')))
+    return sets
 
 
 TYPE_MAPS = {
